@@ -108,13 +108,24 @@ class Scenario(object):
             if self.kind == "dw" and keys and rng.random() < 0.06:
                 w[rng.choice(keys)] = -1
             self.alpha = w
+        if not repeat:
+            # the rest of the weight pipeline: an optional risk model and the optimiser
+            k = rng.random()
+            self.risk = "none" if k < 0.7 else ("zero" if k < 0.85 else "drop")
+            self.rset = [a for a in ASSETS if rng.random() < 0.4] if self.risk != "none" else []
+            base = self.alpha if self.alpha is not None else dict((a, 0) for a in self.uni)
+            nkeys = len([a for a in base if not (self.risk == "drop" and a in self.rset)])
+            self.opt, self.scale = "fixed", "1"
+            if nkeys in (1, 2, 4) and rng.random() < 0.3:
+                self.opt, self.scale = "equal", rng.choice(["1", "1", "1/2", "2", "0"])
         pd_ = self.broker.get_portfolio_as_dict("pf")
         held = dict((ASSETS.index(a) + 1, int(v["quantity"])) for a, v in pd_.items())
         eq = Fraction(float(self.broker.get_portfolio_total_equity("pf")))
         alpha = dict((ASSETS.index(a) + 1, v) for a, v in (self.alpha if self.alpha is not None else dict((a, 0) for a in self.uni)).items())
         return dict(held=held, uni=[ASSETS.index(a) + 1 for a in self.uni], alpha=alpha,
                     px=dict((i + 1, rat(self.prices[a])) for i, a in enumerate(ASSETS)),
-                    kind=self.kind, eq=rat(eq), par=rat(Fraction(self.par)), fee=rat(Fraction(self.fee)))
+                    kind=self.kind, eq=rat(eq), par=rat(Fraction(self.par)), fee=rat(Fraction(self.fee)),
+                    risk=self.risk, rset=[ASSETS.index(a) + 1 for a in self.rset], opt=self.opt, scale=rat(Fraction(self.scale)))
 
     def rebalance(self, dt, next_open):
         """The real PCM call, execution and fills.  Returns what happened."""
@@ -139,7 +150,19 @@ class Scenario(object):
             items = list(self.alpha.items())
             self.rng.shuffle(items)                  # dictionary order must not matter
             alpha = FixedSignalsAlphaModel(dict((a, float(v)) for a, v in items))
-        pcm = PortfolioConstructionModel(self.broker, "pf", uni, sizer, FixedWeightPortfolioOptimiser(), alpha_model=alpha)
+        from qstrader.portcon.optimiser.equal_weight import EqualWeightPortfolioOptimiser
+        from qstrader.risk_model.risk_model import RiskModel
+        kind_, rset_ = self.risk, set(self.rset)
+
+        class _Risk(RiskModel):
+            """A user risk model: vetoes some assets (weight forced to zero) or removes them from the forecast."""
+            def __call__(self, dt, weights):
+                if kind_ == "zero":
+                    return dict((a, (0.0 if a in rset_ else w)) for a, w in weights.items())
+                return dict((a, w) for a, w in weights.items() if a not in rset_)
+        optimiser = FixedWeightPortfolioOptimiser() if self.opt == "fixed" else EqualWeightPortfolioOptimiser(scale=float(Fraction(self.scale)))
+        pcm = PortfolioConstructionModel(self.broker, "pf", uni, sizer, optimiser, alpha_model=alpha,
+                                         risk_model=(_Risk() if self.risk != "none" else None))
         stats = {"target_allocations": []}
         res = dict(err=None)
         try:
@@ -163,10 +186,11 @@ class Scenario(object):
 def case_tla(c):
     fn = lambda d, f: ("(" + " @@ ".join("%d :> %s" % (k, f(v)) for k, v in sorted(d.items())) + ")") if d else "<<>>"
     return ('[held |-> %s, uni |-> {%s}, alpha |-> %s, px |-> %s, kind |-> "%s", eq |-> <<%d, %d>>, par |-> <<%d, %d>>, '
-            'fee |-> <<%d, %d>>, exact |-> TRUE]' % (
+            'fee |-> <<%d, %d>>, exact |-> TRUE, risk |-> "%s", rset |-> {%s}, opt |-> "%s", scale |-> <<%d, %d>>]' % (
                 fn(c["held"], str), ", ".join(str(x) for x in c["uni"]), fn(c["alpha"], str),
                 fn(c["px"], lambda r: "<<%d, %d>>" % r), c["kind"], c["eq"][0], c["eq"][1], c["par"][0], c["par"][1],
-                c["fee"][0], c["fee"][1]))
+                c["fee"][0], c["fee"][1], c.get("risk", "none"), ", ".join(str(x) for x in c.get("rset", [])), c.get("opt", "fixed"),
+                c.get("scale", (1, 1))[0], c.get("scale", (1, 1))[1]))
 
 
 def tlc_eval(w, cases, rep, label):
@@ -198,7 +222,7 @@ def judge(sc, case, exp, res, dt):
     err, alloc, target, orders = exp
     out = []
     sym = lambda i: ASSETS[i - 1]
-    exp_alloc = dict((sym(a), float(w)) for a, w in alloc)
+    exp_alloc = dict((sym(a), float(Fraction(w[0], w[1]))) for a, w in alloc)
     if len(res["alloc"]) != 1:
         out.append(("allocation", "%d allocation records appended, expected 1" % len(res["alloc"])))
     else:
@@ -207,10 +231,11 @@ def judge(sc, case, exp, res, dt):
         if d != ts(dt):
             out.append(("allocation", "allocation dated %s, expected %s" % (d, ts(dt))))
         if set(rec) != set(exp_alloc):
-            out.append(("allocation-keys", "allocation covers %s, expected %s (held %s, universe %s, alpha %s)" % (
-                sorted(rec), sorted(exp_alloc), sorted(sym(a) for a in case["held"]), sc.uni, sc.alpha)))
+            out.append(("allocation-keys", "allocation covers %s, expected %s (held %s, universe %s, alpha %s, risk model %s %s, optimiser %s)" % (
+                sorted(rec), sorted(exp_alloc), sorted(sym(a) for a in case["held"]), sc.uni, sc.alpha, sc.risk, sc.rset, sc.opt)))
         elif any(float(rec[a]) != exp_alloc[a] for a in rec):
-            out.append(("allocation-weights", "allocation %s, expected %s" % (rec, exp_alloc)))
+            out.append(("allocation-weights", "allocation %s, expected %s (risk model %s %s, optimiser %s x %s)" % (
+                rec, exp_alloc, sc.risk, sc.rset, sc.opt, sc.scale)))
     if err:
         if res["err"] != "ValueError":
             out.append(("outcome", "expected ValueError (negative weight in long-only sizing), got %s" % res["err"]))
@@ -270,6 +295,9 @@ def run(prop, replay_file=None):
                 if exp is None:
                     continue
                 rep.cov["evaluations"] += 1
+                pl = rep.cov.setdefault("pipeline_cases", {})
+                for key in ("risk=" + case["risk"], "optimiser=" + case["opt"]):
+                    pl[key] = pl.get(key, 0) + 1
                 heldset = set(case["held"])
                 if heldset - set(case["uni"]) and heldset - set(case["alpha"]) and not exp[0]:
                     nontriv.add((sc.sid, rnd))
